@@ -128,6 +128,33 @@ func comboOptionTokens() []string {
 	return ts
 }
 
+// truncation limits around the sizes of the multi-byte strings / arrays of the cbor decode value
+var truncMembers = []string{"array_truncate", "depth", "string_truncate"}
+var truncValues = []string{"n:0", "n:1", "n:2", "n:12", "n:13", "n:16", "n:17", "n:29", "n:30", "n:31", "n:49", "n:50", "n:51", "n:52", "n:60", "n:2147483648"}
+
+func truncOptionTokens() []string {
+	var ts []string
+	for _, m := range truncMembers {
+		for _, v := range truncValues {
+			ts = append(ts, "O("+m+"="+v+")")
+		}
+	}
+	// both truncations at once
+	for _, v := range []string{"n:1", "n:30", "n:50"} {
+		for _, w := range []string{"n:1", "n:17", "n:50", "n:51"} {
+			ts = append(ts, "O(array_truncate="+v+";string_truncate="+w+")")
+		}
+	}
+	return ts
+}
+
+// the functions that show a decode value as a tree (previewValue / dump.go)
+var displayFns = map[string]bool{
+	"display/1": true, "display_implicit/1": true, "d/1": true, "da/1": true, "dd/1": true, "dv/1": true, "ddv/1": true,
+	"_display/1": true, "hexdump/1": true, "hd/1": true, "tovalue/1": true,
+}
+var truncInputs = []string{"dv:cbor=O()", "dv:cbor_arr51=O()"}
+
 // functions that take display / format options as their only argument
 var optionFns = map[string]bool{
 	"tovalue/1": true, "toactual/1": true, "tosym/1": true, "display/1": true, "display_implicit/1": true,
@@ -138,7 +165,7 @@ var optionFns = map[string]bool{
 }
 
 // inputs that reach the bits format renderer / the dump code
-var optionInputs = []string{"bin:fffe00/24/8", "bin:a8/5/1", "dv:png_sig=s:efbfbd504e470d0a1a0a", "dv:png=O()"}
+var optionInputs = []string{"bin:fffe00/24/8", "bin:a8/5/1", "dv:png_sig=s:efbfbd504e470d0a1a0a", "dv:png=O()", "dv:cbor=O()"}
 
 // generate: quick = a seeded sample per function, thorough = exhaustive for arity <= 2
 // (arity >= 3 pairwise covering), over all pool values in every position.
@@ -175,6 +202,18 @@ func generate(fns []fnInfo, p poolT, cfg hlib.Config, rnd *hlib.Rand) []pcase {
 		}
 		if only != "" && f.key() != only {
 			continue
+		}
+		if displayFns[f.key()] {
+			// every truncation limit on the decode values with multi-byte strings: both tiers
+			for _, in := range truncInputs {
+				if _, ok := p.byTok(in); !ok {
+					cases = append(cases, pcase{fn: -1, toks: []string{f.key(), in, "pool-value-missing"}})
+					continue
+				}
+				for _, ot := range truncOptionTokens() {
+					cases = append(cases, pcase{fn: fi, toks: []string{in, ot}})
+				}
+			}
 		}
 		if optionFns[f.key()] {
 			// thorough: every combined option object on every renderer-reaching input;
